@@ -5,6 +5,7 @@ mod clock;
 mod gen;
 mod run;
 mod scenario;
+mod seqwalk;
 mod sim;
 mod wire;
 
@@ -34,6 +35,7 @@ fn cmd_sim(args: &[String]) -> i32 {
             "fault" => gen::gen_fault(seed, n),
             "timing" => gen::gen_timing(seed, n),
             "sched" => gen::gen_sched(seed, n),
+            "storm" => gen::gen_storm(seed, n),
             f => {
                 eprintln!("unknown family {f}");
                 return 2;
@@ -70,10 +72,42 @@ fn cmd_sim(args: &[String]) -> i32 {
     0
 }
 
+fn cmd_seqwalk(args: &[String]) -> i32 {
+    let seed: u64 = arg(args, "--seed").and_then(|s| s.parse().ok()).unwrap_or(1);
+    let n: usize = arg(args, "--n").and_then(|s| s.parse().ok()).unwrap_or(10);
+    let out = arg(args, "--out").unwrap_or("/dev/stdout");
+    let mut walks = Vec::new();
+    if let Some(path) = arg(args, "--walks") {
+        // lines as printed by TLC: <<"WALK", "{...json...}">>
+        for l in std::fs::read_to_string(path).expect("read walks").lines() {
+            if let (Some(a), Some(b)) = (l.find("\"{"), l.rfind("}\"")) {
+                let js = l[a + 1..=b].replace("\\\"", "\"");
+                if let Ok(w) = serde_json::from_str::<seqwalk::Walk>(&js) {
+                    walks.push(w);
+                }
+            }
+        }
+    }
+    walks.extend(seqwalk::random_walks(seed, n));
+    std::panic::set_hook(Box::new(|_| {}));
+    let mut f = std::io::BufWriter::new(std::fs::File::create(out).expect("create out"));
+    let nw = walks.len();
+    let (events, panics) = seqwalk::run(&walks, seed, &mut f);
+    f.flush().unwrap();
+    if let Some(path) = arg(args, "--stats") {
+        let stats: Vec<_> = walks.iter().enumerate().map(|(i, w)| json!({"id":format!("walk-{i}"),"cell":format!("{}/{}", w.regime, w.max),
+            "shape":format!("init{}-r{}", w.init, w.sizes.len()),"delivered":{"genuine":1}})).collect();
+        std::fs::write(path, serde_json::to_string(&stats).unwrap()).unwrap();
+    }
+    eprintln!("seqwalk: {nw} walks, {events} events, {panics} panics");
+    0
+}
+
 fn main() {
     let args: Vec<String> = std::env::args().collect();
     let code = match args.get(1).map(String::as_str) {
         Some("sim") => cmd_sim(&args[2..]),
+        Some("seqwalk") => cmd_seqwalk(&args[2..]),
         _ => {
             eprintln!("usage: vh sim --family F --seed S --n N --out FILE [--stats FILE]");
             2
